@@ -19,7 +19,8 @@
 (* runners: the decision sequences become the gates' scripts.              *)
 (*                                                                         *)
 (* Jobs (env HG_STEPJOBS): [id, prog, provided, mode, dbudget (max number  *)
-(* of gate decisions), fbudget (max number of injected failures)].         *)
+(* of gate decisions), fbudget (max number of injected failures), badopt    *)
+(* (gates may also return an INVALID target)].                             *)
 (***************************************************************************)
 EXTENDS HGProps, Json, IOUtils, TLCExt
 
@@ -63,6 +64,7 @@ Plan ==
 Options(nd) ==
   {<<nd.targets[i]>> : i \in 1..Len(nd.targets)}
   \cup (IF nd.kind = "ifelse" THEN {} ELSE {<<None>>})
+  \cup (IF nd.kind = "route" /\ Job.badopt THEN {<<"~bad">>} ELSE {})      \* a name outside the targets: the gate raises
   \cup (IF nd.multi /\ Len(nd.targets) >= 2 THEN {[i \in 1..Len(SelectSeq(nd.targets, LAMBDA t : t # "END")) |-> SelectSeq(nd.targets, LAMBDA t : t # "END")[i]]} ELSE {})
 
 Exec ==
